@@ -12,6 +12,7 @@ import (
 	"os"
 	"path/filepath"
 	"runtime"
+	"runtime/debug"
 	"sort"
 	"strconv"
 	"sync"
@@ -31,6 +32,7 @@ type caseResult struct {
 	malformed bool
 	verdict   Verdict
 	kind      string
+	dur       time.Duration
 }
 
 type sample struct {
@@ -164,6 +166,7 @@ func main() {
 	known := flag.Bool("known", false, "also generate the shapes of known defects and judge them strictly")
 	maxPerSig := flag.Int("max-per-signature", 3, "violations reported per signature")
 	flag.Parse()
+	debug.SetGCPercent(400)
 	if *outDir == "" {
 		fmt.Fprintln(os.Stderr, "cssoracle: -out is required")
 		os.Exit(2)
@@ -214,6 +217,7 @@ func main() {
 				input, cfg, malformed, kind := makeCase(*seed, i, *known)
 				cur[w].Store(busy{time.Now(), fmt.Sprintf("case %d (%s) %q", i, cfg, input)})
 				cr := &caseResult{idx: i, input: input, cfg: cfg, malformed: malformed, kind: kind}
+				t0 := time.Now()
 				if malformed {
 					cr.verdict = evalMalformed(input, cfg)
 				} else {
@@ -222,10 +226,12 @@ func main() {
 				if f := cr.verdict.Finding; f != nil {
 					classify(f, input, cfg)
 				}
+				cr.dur = time.Since(t0)
 				results[i] = cr
 			}
 		}(w)
 	}
+	tStart := time.Now()
 	done := make(chan struct{})
 	go func() { wg.Wait(); close(done) }()
 	timedOut := ""
@@ -250,6 +256,9 @@ wait:
 		os.Exit(0)
 	}
 
+	if os.Getenv("CSSORACLE_DEBUG") != "" {
+		fmt.Println("evaluation phase:", time.Since(tStart))
+	}
 	distinct := map[uint64]bool{}
 	perSig := map[string]int{}
 	malformedN, rejected := 0, 0
@@ -258,9 +267,13 @@ wait:
 		cr *caseResult
 	}
 	var toShrink []pending
+	var slowest *caseResult
 	for _, cr := range results {
 		if cr == nil {
 			continue
+		}
+		if slowest == nil || cr.dur > slowest.dur {
+			slowest = cr
 		}
 		res.Hist("case_kind", cr.kind)
 		res.Hist("size_bucket", sizeBucket(len(cr.input)))
@@ -340,6 +353,9 @@ wait:
 	res.Violations = append(res.Violations, viol...)
 	res.DistinctNontrivial = len(distinct)
 	res.NotJudged = njTotal
+	if slowest != nil && os.Getenv("CSSORACLE_DEBUG") != "" {
+		fmt.Printf("slowest case %d: %v (%s) %q\n", slowest.idx, slowest.dur, slowest.cfg, slowest.input)
+	}
 	res.Extra = map[string]interface{}{"malformed": malformedN, "rejected": rejected, "cases": *n, "known_mode": *known, "workers": workers}
 	if err := res.Write(resPath); err != nil {
 		fmt.Fprintln(os.Stderr, "cssoracle:", err)
